@@ -195,4 +195,30 @@ ActsScen(pk) ==
          \o <<[MkRule(90, 2, <<RuleLink(<<TK("TX", s_n)>>, << >>, OpLit("ge", s_2), FALSE, <<A("deny")>>)>>) EXCEPT !.sev = 3]>>,
          pk.rq \o (IF pk.post THEN <<E("ARGS_POST", s_a, s_x)>> ELSE << >>), "On")
 
+(***************************************************************************)
+(* Family "cache" (C12, C04): two or three rules of one phase that share   *)
+(* full or partial transformation lists over the same and different        *)
+(* targets, requests with a repeated name next to another name, and a      *)
+(* chain link over MATCHED_VAR (content changes during the phase).         *)
+(***************************************************************************)
+s_Xs == <<88, 32>>      \* "X "
+CacheTfs == {<<"lowercase">>, <<"lowercase", "trim">>, <<"trim", "lowercase">>, <<"trim">>}
+SelTgtRx == Tgt("ARGS_GET", SelRx([m |-> "prefix", lit |-> s_a]), FALSE, << >>)
+CacheTargets == {T("ARGS_GET"), TK("ARGS_GET", s_a), T("ARGS"), SelTgtRx}
+CacheEntries == {E("ARGS_GET", k, v) : k \in {s_a, s_b}, v \in {s_X, s_sx, s_y}}
+CacheRule(id, tg, tfs) == MkRule(id, 2, <<RuleLink(<<tg>>, tfs, OpLit("streq", s_x), FALSE, << >>)>>)
+CacheChain(id, tfs) ==
+  MkRule(id, 2, <<RuleLink(<<T("ARGS_GET")>>, << >>, OpLit("contains", s_x), FALSE, << >>),
+                  RuleLink(<<T("MATCHED_VAR")>>, tfs, OpLit("streq", s_x), FALSE, << >>)>>)
+CachePicks(maxEntries, rich, slice, slices) ==
+  [t1 : IF rich THEN CacheTfs ELSE {<<"lowercase">>, <<"trim", "lowercase">>},
+   g2 : CacheTargets, t2 : CacheTfs, third : IF rich THEN {"none", "chainA", "chainB"} ELSE {"none", "chainB"},
+   rq : SliceOf(SeqsOfLen(CacheEntries, maxEntries), slice, slices)]
+CacheScen(pk) ==
+  MkScen(<<CacheRule(10, T("ARGS_GET"), pk.t1), CacheRule(20, pk.g2, pk.t2)>>
+         \o (IF pk.third = "none" THEN << >>
+             ELSE IF pk.third = "chainA" THEN <<CacheChain(30, pk.t1)>>
+             ELSE <<CacheChain(30, pk.t1), CacheChain(40, pk.t1)>>),
+         pk.rq, "On")
+
 =============================================================================
